@@ -219,6 +219,41 @@ func NewWorld(tape *sim.Tape) *World {
 // lingering goroutines are gone before the bubble is left.
 func (w *World) Cleanup() {
 	w.fakeSeconds = w.FakeSeconds()
+	// first every task of every process is brought to its end without waiting for
+	// the bubble to settle in between: a run may end (verdict reached, step cap, a
+	// harness panic) while a task of some node waits for a product mutex held by
+	// a parked task of that node, and synctest.Wait does not return as long as
+	// any goroutine of the bubble waits for a mutex
+	for _, n := range w.Nodes {
+		if n.inc != nil {
+			n.inc.gs.kill()
+			n.inc.cancel()
+		}
+	}
+	w.mu.Lock()
+	all := append([]*Task(nil), w.tasks...)
+	w.mu.Unlock()
+	for round := 0; round < 64; round++ {
+		alive := 0
+		for _, t := range all {
+			if t.Node < 0 || t.Done() {
+				continue
+			}
+			alive++
+			if t.Parked() != nil {
+				t.grant <- cmdCrash
+				for i := 0; i < 4000000 && !t.Done(); i++ {
+					runtime.Gosched()
+				}
+			}
+		}
+		if alive == 0 {
+			break
+		}
+		for i := 0; i < 20000; i++ {
+			runtime.Gosched()
+		}
+	}
 	for _, n := range w.Nodes {
 		if n.inc != nil {
 			w.stopNode(n, false)
@@ -445,17 +480,43 @@ func (w *World) killNodeTasks(node int, first *Task) {
 		n.inc.gs.kill()
 		n.inc.cancel()
 	}
+	// A task of the node may be blocked on a product mutex that another (parked)
+	// task of the node holds - gate-level interleaving inside a critical section
+	// (C14). synctest.Wait never returns while a goroutine waits for a mutex, so
+	// the dying tasks are observed by polling until every one of them is gone:
+	// the holder dies at its gate (its deferred unlock runs), the waiter then
+	// reaches its own next gate and dies there.
+	gone := func(t *Task) {
+		for i := 0; i < 4000000 && !t.Done(); i++ {
+			runtime.Gosched()
+		}
+	}
 	if first != nil && first.Parked() != nil {
 		first.grant <- cmdCrash
-		w.settle()
+		gone(first)
 	}
 	w.mu.Lock()
 	ts := append([]*Task(nil), w.tasks...)
 	w.mu.Unlock()
-	for _, t := range ts {
-		if t.Node == node && !t.Done() && t.Parked() != nil {
-			t.grant <- cmdCrash
-			w.settle()
+	for round := 0; round < 64; round++ {
+		alive := 0
+		for _, t := range ts {
+			if t.Node != node || t.Done() {
+				continue
+			}
+			alive++
+			if t.Parked() != nil {
+				t.grant <- cmdCrash
+				gone(t)
+			}
+		}
+		if alive == 0 {
+			break
+		}
+		// neither parked nor done: about to get the lock its holder just released,
+		// or on its way out after the context was cancelled
+		for i := 0; i < 20000; i++ {
+			runtime.Gosched()
 		}
 	}
 	w.settle()
